@@ -275,6 +275,30 @@ func dumpTF(v attr.Value) interface{} {
 			return "unknown"
 		}
 		return "b:" + strconv.FormatBool(t.Value)
+	case tfx.AltString:
+		if t.Null {
+			return "null"
+		}
+		if t.Unknown {
+			return "unknown"
+		}
+		return "s:" + strconv.Quote(t.Value)
+	case tfx.AltInt64:
+		if t.Null {
+			return "null"
+		}
+		if t.Unknown {
+			return "unknown"
+		}
+		return "i:" + strconv.FormatInt(t.Value, 10)
+	case tfx.AltBool:
+		if t.Null {
+			return "null"
+		}
+		if t.Unknown {
+			return "unknown"
+		}
+		return "b:" + strconv.FormatBool(t.Value)
 	case tfx.TimeValue:
 		if t.Null {
 			return "null"
